@@ -283,8 +283,10 @@ def _file_may_match(
                     return False
 
             elif expr.op == FilterOp.NE:
-                # For inequality: can only prune if entire file has same value
-                if file_min == file_max == expr.value:
+                # For inequality: can only prune if entire file has same value.
+                # min/max ignore NaN, and a NaN row DOES satisfy `!=`, so equal
+                # float bounds do not prove that every row equals the literal.
+                if file_min == file_max == expr.value and not isinstance(file_min, float):
                     return False
 
             elif expr.op == FilterOp.GT:
@@ -314,8 +316,10 @@ def _file_may_match(
             elif expr.op == FilterOp.IN:
                 # For IN: at least one value in the list must be in [file_min, file_max]
                 if expr.value:
+                    # A NaN in the list matches NaN rows (is_in semantics), and
+                    # NaN rows are invisible to the bounds: never prune on it.
                     has_possible_match = any(
-                        file_min <= v <= file_max for v in expr.value
+                        v != v or file_min <= v <= file_max for v in expr.value
                     )
                     if not has_possible_match:
                         return False
